@@ -251,7 +251,10 @@ class Source(tuple, metaclass=abc.ABCMeta):
         return self.Schema(
             self.__class__.__name__,
             (_struct.Schema.schema,),
-            {(c.name or f'_{i}'): _struct.Field(c.kind, c.name) for i, c in enumerate(self.features)},
+            {
+                (getattr(c, 'name', None) or f'_{i}'): _struct.Field(c.kind, getattr(c, 'name', None))
+                for i, c in enumerate(self.features)
+            },
         )
 
     @functools.cached_property
